@@ -96,7 +96,7 @@ func union(this, that map[string]struct{}) map[string]struct{} {
 	return this
 }
 
-func newPackage(program *loader.Program, pkgInfo *loader.PackageInfo, plugins []Plugin, autoname, dedup bool) (*pkg, error) {
+func newPackage(program *loader.Program, pkgInfo *loader.PackageInfo, plugins []Plugin, autonamed map[string]string, autoname, dedup bool) (*pkg, error) {
 	fileInfos := newFileInfos(program, pkgInfo)
 	// The directory of the package is that of any of its files:
 	// a package that is left with nothing but a generated file still has its own directory.
@@ -147,7 +147,7 @@ func newPackage(program *loader.Program, pkgInfo *loader.PackageInfo, plugins []
 	typesmaps := make(map[string]TypesMap, len(plugins))
 	deps := make(map[string]Dependency, len(plugins))
 	for _, plugin := range plugins {
-		tm := newTypesMap(qual, plugin.GetPrefix(), reserved, autoname, dedup)
+		tm := newTypesMap(qual, plugin.GetPrefix(), reserved, autonamed, autoname, dedup)
 		deps[plugin.Name()] = tm
 		typesmaps[plugin.Name()] = tm
 	}
@@ -505,7 +505,7 @@ func (pg *program) generatePackage(pkgInfo *loader.PackageInfo) error {
 	if isExternalTestPackage(pg.program, pkgInfo) {
 		// The external test package shares its directory, and so the name of its generated file,
 		// with the package it tests: what is generated for it would replace, or remove, that package's functions.
-		pkgGen, err := newPackage(pg.program, pkgInfo, pg.plugins, pg.autoname, pg.dedup)
+		pkgGen, err := newPackage(pg.program, pkgInfo, pg.plugins, make(map[string]string), pg.autoname, pg.dedup)
 		if err != nil {
 			return err
 		}
@@ -517,10 +517,12 @@ func (pg *program) generatePackage(pkgInfo *loader.PackageInfo) error {
 	generated := true
 	var undefined string
 	thisprogram := pg.program
+	// The calls that -autoname renamed, kept for all the passes over this package.
+	autonamed := make(map[string]string)
 	// The first pass sees the imported packages as they were loaded, before this run generated for them:
 	// a second pass, on the reloaded program, follows even when the first one could not generate anything.
 	for passes := 0; generated || passes < 2; passes++ {
-		pkgGen, err := newPackage(thisprogram, pkgInfo, pg.plugins, pg.autoname, pg.dedup)
+		pkgGen, err := newPackage(thisprogram, pkgInfo, pg.plugins, autonamed, pg.autoname, pg.dedup)
 		if err != nil {
 			return err
 		}
